@@ -147,6 +147,16 @@ pub fn lw_pool(quick: bool) -> Vec<LwSpec> {
         env.fates = &[Fate::Deliver, Fate::Drop]; env.deltas = &[20];
         v.push(sp(&format!("bulk.fill-window.{}", cname), &cfg, &s, env, 1));
     }
+    // F12: one packet of 300 fragments (fragment ids beyond 8 bits, acknowledgement flags beyond one 64-bit word, ids 32 / 64 / 256
+    // apart in the same packet): any one of the frames of the transfer is lost, data or acknowledgement
+    for (name, mode) in [("reliable", Reliable), ("persistent", Persistent)] {
+        if quick && name == "persistent" { continue; }
+        let ops: Vec<Op> = vec![send(0, 0, 0, mode, 299 * FRAG + 77), send(1, 0, 0, Reliable, 9)];
+        let s = Arc::new(ScriptInfo::new(ops));
+        let mut env = env_live(0, 250);
+        env.fates = &[Fate::Deliver, Fate::Drop]; env.deltas = &[20];
+        v.push(sp(&format!("bulk.one-packet-300-fragments.{}", name), &wide, &s, env, 1));
+    }
     // F10: one Reliable packet followed at once by a long run of small Unreliable ones (parent leads of 1..300: every datagram
     // header encoding and its boundaries 127/128, 255/256 occur), same channel and alternating channels, warm
     for (name, chans) in [("same-channel", 1usize), ("two-channels", 2)] {
